@@ -654,13 +654,21 @@ static void check_case(Case &C, Tape &t)
 		if (k.kind == xl::KK_RSA) VF_CHECK(lib.key_type == BR_KEYTYPE_RSA && lib.a == k.n && lib.b == k.e, "%s: the returned RSA key is not the leaf's (n %zu bytes vs %zu)", desc.c_str(), lib.a.size(), k.n.size());
 		else VF_CHECK(lib.key_type == BR_KEYTYPE_EC && lib.curve == k.curve && lib.a == k.q, "%s: the returned EC key is not the leaf's (curve %d vs %d)", desc.c_str(), lib.curve, k.curve);
 		VF_CHECK(lib.usages == ref.usages, "%s: returned usages %#x, the leaf's KeyUsage encodes %#x", desc.c_str(), lib.usages, ref.usages);
-		VF_CHECK(lib.cn_status == ref.cn_status && lib.dns_status == ref.dns_status, "%s: name element status CN %d / dNSName %d, expected %d / %d", desc.c_str(), lib.cn_status, lib.dns_status, ref.cn_status, ref.dns_status);
 		if (C.bom_name && known("bom-stripped-before-name-match")) {
-			// same listed finding, seen through the name elements: the reported string lacks the leading U+FEFF
-			bool stripped = false;
-			for (std::string *n : { &ref.cn, &ref.dns }) if (n->size() >= 3 && (uint8_t)(*n)[0] == 0xEF && (uint8_t)(*n)[1] == 0xBB && (uint8_t)(*n)[2] == 0xBF) { n->erase(0, 3); stripped = true; }
-			if (stripped) { stats.known_finding("bom-stripped-before-name-match", "the name element reported for a leaf name that starts with U+FEFF lacks that character (encode-UTF8 in asn1.t0 drops a leading BOM)"); stats.cls("known:bom-name"); }
+			// same listed finding, seen through the name elements: the library behaves as if the leaf name did not start with
+			// U+FEFF - compare with the reference run on the chain with that character removed
+			std::vector<ACert> ch2 = C.chain;
+			auto strip = [](Bytes &v) { if (v.size() >= 3 && v[0] == 0xEF && v[1] == 0xBB && v[2] == 0xBF) v.erase(v.begin(), v.begin() + 3); };
+			for (auto &rdn : ch2[0].subject.rdns) for (auto &a : rdn) if (a.oid == xl::OID_CN) strip(a.value);
+			for (auto &x : ch2[0].exts) if (x.kind == X_SAN) for (auto &g : x.names) strip(g.value);
+			Verdict rk = reference(ch2, C.cfg);
+			if (rk.cn_status != ref.cn_status || rk.dns_status != ref.dns_status || rk.cn != ref.cn || rk.dns != ref.dns) {
+				stats.known_finding("bom-stripped-before-name-match", "the name element reported for a leaf name that starts with U+FEFF lacks that character (encode-UTF8 in asn1.t0 drops a leading BOM)");
+				stats.cls("known:bom-name");
+				ref.cn_status = rk.cn_status; ref.dns_status = rk.dns_status; ref.cn = rk.cn; ref.dns = rk.dns;
+			}
 		}
+		VF_CHECK(lib.cn_status == ref.cn_status && lib.dns_status == ref.dns_status, "%s: name element status CN %d / dNSName %d, expected %d / %d", desc.c_str(), lib.cn_status, lib.dns_status, ref.cn_status, ref.dns_status);
 		if (ref.cn_status == 1) VF_CHECK(lib.cn == std::string(ref.cn.c_str()), "%s: CN element '%s', expected '%s'", desc.c_str(), lib.cn.c_str(), ref.cn.c_str());
 		if (ref.dns_status == 1) VF_CHECK(lib.dns == std::string(ref.dns.c_str()), "%s: dNSName element '%s', expected '%s'", desc.c_str(), lib.dns.c_str(), ref.dns.c_str());
 	}
